@@ -4,24 +4,15 @@ import json
 from pathlib import Path
 
 VERIF = Path(__file__).resolve().parent.parent
-CLAIMED = {
-    'C10': dict(
-        text='Machine-checked theorems (Coq 8.16) about an executable Gallina model of the material-card path: ZAID '
-             'splitting for every Z in 1..118 and A in 0..999, nuclides kept in order with suffixes/keywords ignored, '
-             'mixed signs rejected, concentrations summing to the density and proportional to the fractions (over R). '
-             'The model is tied to /repo on every run by executing the implementation and the model on the same '
-             'generated cards and on whole conversions (COMPOSITION block read back).',
-        note='Trusted: Coq kernel + vm_compute, Reals axioms, the hand-written model (tied by execution on generated '
-             'inputs only), decimal<->binary64 conversion and %.15e rendering (not modelled), harness and TatSu shim.',
-        technique='Coq proof over a hand-written executable model + correspondence by execution (vm_compute)',
-        design='5.11'),
-}
+CLAIMED = {p.stem: json.loads(p.read_text())
+           for p in sorted((VERIF / 'harness' / 'manifest').glob('C*.json'))}
+NOT_CLAIMED = {}
 PENDING = {}
 for line in (VERIF / 'properties.jsonl').read_text().splitlines():
     pid = json.loads(line)['id']
     if pid not in CLAIMED:
-        PENDING[pid] = ('check not built yet in this round (model and tie planned in DESIGN.md; '
-                        'no claim is made until the check exists)')
+        PENDING[pid] = NOT_CLAIMED.get(pid, 'check not integrated yet (model and tie planned in DESIGN.md; '
+                                            'no claim is made until the check exists and passes on the unchanged tree)')
 
 manifest = {
     'version': 1,
